@@ -106,3 +106,26 @@ def at_path(v, path):
         else:
             return False, None
     return True, cur
+
+
+def escaped_text(v):
+    """JSON text of v with every character of every string (keys too) written as a \\uXXXX escape:
+    an equivalent text that no parser can borrow strings from"""
+    def esc(x):
+        out = []
+        for ch in x:
+            o = ord(ch)
+            if o > 0xFFFF:
+                o -= 0x10000
+                out.append("\\u%04x\\u%04x" % (0xD800 + (o >> 10), 0xDC00 + (o & 0x3FF)))
+            else:
+                out.append("\\u%04x" % o)
+        return '"' + "".join(out) + '"'
+    if isinstance(v, str):
+        return esc(v)
+    if isinstance(v, list):
+        return "[" + ",".join(escaped_text(x) for x in v) + "]"
+    if isinstance(v, dict):
+        return "{" + ",".join(esc(k) + ":" + escaped_text(x) for k, x in v.items()) + "}"
+    import json
+    return json.dumps(v)
